@@ -812,7 +812,50 @@ class Inliner(object):
           caller.body.remove(x)
     ast.fix_missing_locations(caller)
 
+  def inline_properties(self):
+    """`self._p` where _p is a private @property of the class whose body is
+    a single `return <expression over self>`: the expression."""
+    for st in self.tree.body:
+      if not isinstance(st, ast.ClassDef):
+        continue
+      props = {}
+      for m in st.body:
+        if isinstance(m, ast.FunctionDef) and len(m.decorator_list) == 1 and \
+            isinstance(m.decorator_list[0], ast.Name) and \
+            m.decorator_list[0].id == 'property' and m.name.startswith('_') \
+            and not m.name.startswith('__') and (
+                self.relpath, '%s.%s' % (st.name, m.name)) not in self.anchors:
+          body = [s for s in m.body if not _is_docstring(s)]
+          if len(body) == 1 and isinstance(body[0], ast.Return) and \
+              body[0].value is not None and len(m.args.args) == 1 and \
+              not self.foreign_text(m.name):
+            props[m.name] = (m, body[0].value)
+      if not props:
+        continue
+      used = set()
+      for m in st.body:
+        if not isinstance(m, ast.FunctionDef) or m.name in props:
+          continue
+        for parent in ast.walk(m):
+          for field, val in ast.iter_fields(parent):
+            items = val if isinstance(val, list) else [val]
+            for i, x in enumerate(items):
+              if isinstance(x, ast.Attribute) and isinstance(
+                  x.ctx, ast.Load) and isinstance(x.value, ast.Name) and \
+                  x.value.id == 'self' and x.attr in props:
+                new = ast.copy_location(_fast_copy(props[x.attr][1]), x)
+                if isinstance(val, list):
+                  val[i] = new
+                else:
+                  setattr(parent, field, new)
+                used.add(x.attr)
+      for name in used:
+        st.body.remove(props[name][0])
+        self.log.append('%s: property %s.%s inlined' % (self.relpath, st.name,
+                                                        name))
+
   def run(self):
+    self.inline_properties()
     for st in list(self.tree.body):
       if isinstance(st, ast.FunctionDef):
         self.process_function(st, None, st.name)
